@@ -473,9 +473,27 @@ def mon_c10(hs, prev, op, ok, trace, cur, known):
 
 
 def mon_c11(hs, prev, op, ok, trace, cur, known):
+    t0 = op.split(' ')
+    # ghost of the legacy (pre-v2) wait list as injected by `legacy_wait` (key (address, batch), last write wins)
+    if t0[0] in ('reset', 'inst_hub'):
+        hs['legacy_ghost'] = {}
+    if t0[0] == 'legacy_wait' and ok:
+        hs.setdefault('legacy_ghost', {})[(t0[1], t0[2])] = int(t0[3])
     if prev is None:
         return None
     t = op.split(' ')
+    # a migration that drains the legacy list has carried EVERY legacy claim over: each injected entry is now the
+    # user's bSei claim on that batch in the v2 list (the migration writes the entry, amount for amount)
+    if t[0] == 'hub' and len(t) > 2 and t[2] == 'migrate' and ok and hs.get('legacy_ghost'):
+        old_ = cur.one('hub.oldwait')
+        if old_ is not None and int(old_[0]) == 0:
+            waits_ = cur.table('hub.wait', 2)
+            for (a_, b_), amt_ in sorted(hs['legacy_ghost'].items()):
+                w_ = waits_.get((a_, b_))
+                if amt_ > 0 and (w_ is None or int(w_[0]) != amt_):
+                    return ('violation', 'MigrateUnbondWaitList drained the legacy list but the legacy claim of %s on batch %s '
+                            '(%d bSei) is %s in the new wait list' % (a_, b_, amt_, 'missing' if w_ is None else 'recorded as %s' % w_[0]))
+            hs['legacy_ghost'] = {}
     pz = _cfg(prev, 'hub.params', 6)
     hub_tx = t[0] == 'bond' or t[0] == 'hub'
     if pz == '1' and hub_tx and ok:
